@@ -53,6 +53,18 @@ def _dangling(text):
     return {t for (_, t, _) in inf.jumps} - set(inf.labels)
 
 
+def _declared_twice(text, names):
+    """Are all of these names already declared more than once in this text (the source itself DIMs them twice)?"""
+    cnt = {}
+    for ln in text.split("\n"):
+        m = re.match(r"^(?:\d+ )?DIM (.*?)(?::\s*STRING(?:\[\d+\])?)?\s*$", ln.strip(), re.I)
+        if m:
+            for ent in re.split(r",\s*(?![^()]*\))", m.group(1)):
+                nm = ent.split("(")[0].strip().lower()
+                cnt[nm] = cnt.get(nm, 0) + 1
+    return all(cnt.get(n, 0) > 1 for n in names)
+
+
 def check_pair(name, on, off):
     """on/off: outputs with the option on / off (for the size option: non-default / default).  -> problem or None"""
     if name == "filter_unused_linenum":
@@ -110,6 +122,29 @@ def check_pair(name, on, off):
             return {"first_difference": d}
         return None
     if name == "default_str_storage":
+        # the added DIM name:STRING[n] lines may only declare names the text does not declare elsewhere
+        declared = {}
+        for ln in on.split("\n"):
+            m = re.match(r"^(?:\d+ )?DIM (.*?)(?::\s*STRING(?:\[\d+\])?)?\s*$", ln.strip(), re.I)
+            if m and not ln.lower().startswith(("dim joy", "dim display", "dim play", "dim erno")):
+                for ent in re.split(r",\s*(?![^()]*\))", m.group(1)):
+                    nm = ent.split("(")[0].strip().lower()
+                    if nm:
+                        declared[nm] = declared.get(nm, 0) + 1
+        twice = sorted(k for k, v in declared.items() if v > 1)
+        twice_off = set()
+        for ln in off.split("\n"):
+            m = re.match(r"^(?:\d+ )?DIM (.*?)(?::\s*STRING(?:\[\d+\])?)?\s*$", ln.strip(), re.I)
+            if m:
+                seen = {}
+                for ent in re.split(r",\s*(?![^()]*\))", m.group(1)):
+                    nm = ent.split("(")[0].strip().lower()
+                    seen[nm] = seen.get(nm, 0) + 1
+                twice_off |= {k for k, v in seen.items() if v > 1}
+        twice = [k for k in twice if k not in twice_off]
+        if twice and not _declared_twice(off, twice):
+            return {"declared_twice_only_with_the_size_option": twice[:4]}
+
         def norm(t):
             return [_STRSUF.sub("", ln) for ln in t.split("\n") if not _STRDIM.match(ln.strip())]
         a, b = norm(on), norm(off)
@@ -325,6 +360,11 @@ def cases(tier, seed):
         for fs in ([], ["-l", "-z"], ["-D", "-s80"]):
             yield {"kind": "cli", "seed": i, "flags": fs, "stem": "odd%d" % i, "text": t}
         yield {"kind": "opts", "seed": i, "text": t}
+    for i, t in enumerate(['10 DIM N$,A$(3),K\n20 N$="X":A$(1)=N$:K=LEN(N$)\n30 PRINT N$;A$(1);B$\n', '10 DIM Q$\n20 INPUT Q$\n30 IF Q$="" THEN 20\n',
+                           '10 DIM S$(2,2),T$,U\n20 T$=STR$(U)+HEX$(U):S$(1,1)=T$\n30 READ T$:DATA X\n']):
+        # programs that DIM their own scalar strings (the size option must re-size them, not declare them again)
+        for a in (80, 16):
+            yield {"kind": "opts", "seed": i, "text": t, "alt_size": a}
     for fs in flagsets + extra:
         for rep in range(1 if tier == "quick" else 8):
             k += 1
